@@ -795,6 +795,114 @@ func (c *Ctx) c19Hub() {
 		}
 	}
 	r.Floor("C19/HUB", "channel fields of msghub.Hub", n, 1)
+	// producers are released when the consumer is gone: after cancel nobody receives from the
+	// operation queue any more, and the producers are store listeners running in sessions that
+	// are still draining. A producer's send must therefore have a way out — a select arm on a
+	// hub channel that the consumer closes on every one of its exits (or a default) — otherwise
+	// the first producer that finds the queue full blocks for good and Drain never returns.
+	r.Rule("C19/HUB/producers-released", "every send on a msghub.Hub channel that the hub goroutine consumes is a select with a default or with an arm on a Hub channel that the consumer function closes on every exit")
+	fieldOps := func(f *types.Var) []eng.ChanOp {
+		var out []eng.ChanOp
+		for k, os := range ops {
+			if _, kf := keyField(k, os); kf != nil && eng.SameField(kf, f) {
+				for _, o := range os {
+					if !p.IsTestSupport(o.Fn) {
+						out = append(out, o)
+					}
+				}
+			}
+		}
+		return out
+	}
+	nSend := 0
+	ord := map[string]int{}
+	for i := 0; i < st.NumFields(); i++ {
+		f := st.Field(i)
+		if _, isChan := f.Type().Underlying().(*types.Chan); !isChan {
+			continue
+		}
+		var sends, recvs []eng.ChanOp
+		for _, o := range fieldOps(f) {
+			switch o.Kind {
+			case "send":
+				sends = append(sends, o)
+			case "recv":
+				recvs = append(recvs, o)
+			}
+		}
+		if len(sends) == 0 || len(recvs) == 0 {
+			continue
+		}
+		// the consumer: the function(s) receiving from the queue
+		consumers := map[*ssa.Function]bool{}
+		for _, o := range recvs {
+			consumers[eng.Outer(o.Fn)] = true
+		}
+		closedOnEveryExit := func(g *types.Var) bool {
+			okAll := len(consumers) > 0
+			isClose := func(in ssa.Instruction) bool {
+				call := eng.CallOf(in)
+				if call == nil || eng.CalleeName(call) != "builtin.close" || len(call.Args) != 1 {
+					return false
+				}
+				return eng.SameField(eng.LoadedField(call.Args[0]), g)
+			}
+			closesAll := func(fn *ssa.Function) bool {
+				ret := (&eng.Search{Target: eng.IsReturnOf(fn), Avoid: isClose, Deep: true}).FromEntry(fn)
+				return ret == nil || eng.IsRecoverBlock(ret.Block())
+			}
+			for cf := range consumers {
+				// the receive may sit in a step helper (`for hub.serveNext(ctx) {}`): then the
+				// loop's owner, a synchronous caller in the package, is the one that exits
+				cands := []*ssa.Function{cf}
+				okOne := false
+				for depth := 0; depth < 3 && !okOne; depth++ {
+					var next []*ssa.Function
+					for _, fn := range cands {
+						if closesAll(fn) {
+							okOne = true
+						}
+						for _, cs := range p.StaticCallSites(fn) {
+							if _, isCall := cs.Instr.(*ssa.Call); isCall && eng.FuncPkgPath(cs.Instr.Parent()) == eng.FuncPkgPath(fn) {
+								next = append(next, eng.Outer(cs.Instr.Parent()))
+							}
+						}
+					}
+					cands = next
+				}
+				if !okOne {
+					okAll = false
+				}
+			}
+			return okAll
+		}
+		for _, sd := range sends {
+			nSend++
+			cons := siteCons(p, sd.In, ord, "send:"+f.Name())
+			switch {
+			case !sd.InSelect:
+				r.Bad("C19/HUB/producers-released", cons, p.InstrPos(sd.In), "plain send on Hub.%s: once the hub goroutine has exited at cancellation nothing receives from the queue, so a producer (a draining session's store listener) that finds it full blocks for ever and Drain never returns", f.Name())
+			case !sd.Blocking:
+				r.Ok("C19/HUB/producers-released", cons, p.InstrPos(sd.In), "select with default")
+			default:
+				escape := ""
+				for k, stt := range sd.Select.States {
+					if k == sd.State || stt.Dir != types.RecvOnly {
+						continue
+					}
+					if g := eng.LoadedField(stt.Chan); g != nil && closedOnEveryExit(g) {
+						escape = g.Name()
+					}
+				}
+				if escape != "" {
+					r.Ok("C19/HUB/producers-released", cons, p.InstrPos(sd.In), "the send competes with a receive on Hub.%s, which the consumer closes on every exit", escape)
+				} else {
+					r.Bad("C19/HUB/producers-released", cons, p.InstrPos(sd.In), "the send on Hub.%s has no way out once the hub goroutine is gone: no arm of its select receives from a Hub channel that the consumer closes on every one of its exits — after cancellation a producer that finds the queue full blocks for ever (a draining session never finishes, Drain never returns)", f.Name())
+				}
+			}
+		}
+	}
+	r.Floor("C19/HUB/producers-released", "producer sends on consumed Hub channels", nSend, 1)
 }
 
 // retentionCancel implements C12/D3 = C19/D5.
